@@ -350,6 +350,8 @@ func runC06(c *Ctx) {
 		ruleValidationLoops(c, p, "C06.validate")
 		ruleConfigParsed(c, p, "C06.config")
 		ruleConfiguredFlag(c, p, "C06.configured")
+		ruleFieldBeforeUse(c, p, "C06.field-before-use")
+		ruleInferNonNil(c, p, "C06.infer-nonnil")
 		ruleInferCache(c, p, "C06.infer-cache")
 		ruleInferIndex(c, p, "C06.infer-index")
 		ruleSumOverflow(c, p, "C06.sum-overflow")
